@@ -405,7 +405,10 @@ class Ctx:
             seen.add(f["sig"])
             self.add_violation({"kind": "oracle", "test": test, "seed": self.seed, "env": env,
                                 "failure": f, "all_failures": fails[:20]}, sig=f["sig"])
-        if nm and not fails:
+        # a mismatch is excused only by a NEW concrete failing input of this run; oracle failures that
+        # are listed known findings must not hide a broken correspondence
+        new_fails = [f for f in fails if not self.is_known(f["sig"])]
+        if nm and not new_fails:
             self.broken.append(f"correspondence:{tag}")
             self.pending_mismatch = {"kind": "correspondence", "test": test, "seed": self.seed, "env": env,
                                      "mismatches": mism, "count": nm}
